@@ -22,6 +22,7 @@ Reading guide
 -/
 import RioModel.Proofs.TreeHistory
 import RioModel.Proofs.TreeUnique
+import RioModel.Proofs.TreeDistinct
 import RioModel.Proofs.RegexTok
 set_option linter.unusedSimpArgs false
 set_option linter.unusedVariables false
@@ -144,13 +145,18 @@ theorem contents_insert {ic : Bool} (t : Item ι V) (p : List Char) (id : ι) (v
     (t.insert p id v).contents.Perm (refInsert t.contents p id v) :=
   Tree.contents_insert t p id v hinv
 
-/-- Replacement, spelled out: the entry is present afterwards, nothing else is stored under (p, id),
-every other entry is kept, and `len` grows by one iff (p, id) was not present. -/
-theorem insert_replaces {ic : Bool} (t : Item ι V) (p : List Char) (id : ι) (v : V) (hinv : Inv ic t)
-    (hnd : IdNodup t.contents) :
+/-- Under the invariant no (pattern, id) is stored twice; in particular a pattern has at most one leaf
+(the part of the tree invariant that was violated before the D11 repair). -/
+theorem no_duplicate_keys {ic : Bool} (t : Item ι V) (hinv : Inv ic t) : KeyNodup t.contents :=
+  keyNodup_contents t hinv
+
+/-- Replacement, spelled out (only `Inv` needed): after `insert(p, id, v)` the stored entries are the new
+entry plus every old entry *not* stored under (p, id) – so the old value is gone, nothing else changed, and
+`len` grows by one iff (p, id) was not present. -/
+theorem insert_replaces {ic : Bool} (t : Item ι V) (p : List Char) (id : ι) (v : V) (hinv : Inv ic t) :
     (t.insert p id v).contents.Perm
       (⟨p, id, v⟩ :: t.contents.filter fun e => !decide (e.pat = p ∧ e.id = id)) :=
-  (contents_insert t p id v hinv).trans (refInsert_perm_filter hnd p id v)
+  (contents_insert t p id v hinv).trans (refInsert_perm_filter' (no_duplicate_keys t hinv) p id v)
 
 /-- **contents_remove.**  `remove(id)` drops the first entry (tree order) stored under `id` – the only one
 when ids are distinct – and returns its value. -/
